@@ -215,7 +215,7 @@ type c03Witness struct {
 func init() {
 	core.Register(&core.Check{
 		ID:   "C03",
-		Rule: "documents: one-hot per (object kind, field) from hand-written field tables of OAS 3.0.3 (30 kinds, every field the specification defines) and Swagger 2.0 (11 kinds): a minimal document + the kind's required fields + exactly one optional field (+ a specification extension x-ext, + an unknown field, + unknown fields named like the fields of OpenAPI 3.1 / JSON Schema 2020-12 / neighbouring kinds, as text, object and list) at a representative position; map keys in upper and mixed case and pairs differing in case only (media types, header names, property names, component names, paths); PRNG-drawn subsets of optional fields per kind; generated documents; every document under the repository's testdata (idempotence half only). For each: parse, marshal to JSON (J1) and YAML (two YAML libraries), re-parse both, marshal again: J2 = J1 and J(Y1) = J1 always; for the normal-form inputs canonical(J1) = canonical(input), the first differing JSON pointer being classified lost / invented / changed. Distinct = (version, kind, populated field set); non-trivial = at least one optional field, extension or unknown field populated.",
+		Rule: "documents: one-hot per (object kind, field) from hand-written field tables of OAS 3.0.3 (30 kinds, every field the specification defines) and Swagger 2.0 (11 kinds): a minimal document + the kind's required fields + exactly one optional field (+ a specification extension x-ext, + an unknown field, + unknown fields named like the fields of OpenAPI 3.1 / JSON Schema 2020-12 / neighbouring kinds, as text, object and list) at a representative position; map keys in upper and mixed case and pairs differing in case only (media types, header names, property names, component names, paths); PRNG-drawn subsets of optional fields per kind; generated documents; every document under the repository's testdata (idempotence half only). For each: parse, marshal to JSON (J1) and YAML (two YAML libraries), re-parse both, marshal again: J2 = J1 and J(Y1) = J1 always; for the normal-form inputs canonical(J1) = canonical(input), the first differing JSON pointer being classified lost / invented / changed. Distinct = (version, kind, populated field set); non-trivial = at least one optional field, extension or unknown field populated. Example values whose members are named like the library's bookkeeping (__origin__, origin, extensions, x-inner) in media type, parameter and header examples, compared with the input.",
 		Assumptions: []string{
 			"the field tables are a correct transcription of the two specifications; one-hot values are in normal form (non-default, no $ref siblings)",
 			"canonical JSON = keys sorted, numbers by value",
